@@ -128,6 +128,7 @@ func plans(id, tier string) (Plan, bool) {
 			// monitored location; a write that is unordered with another call's access is a violation
 			jobs = append(jobs, Job{Pkg: pkgV2, Harness: "c09_sched", Instr: "v2access", Params: fmt.Sprintf("scenario=%d;threads=2;policy=delay;budget=1;maxsite=100000;monitor=access", sc), Shards: 2})
 		}
+		jobs = append(jobs, Job{Pkg: pkgV2, Harness: "c09_access_corpus", Instr: "v2access", Shards: 16})
 		if th {
 			for sc := 0; sc < 4; sc++ {
 				jobs = append(jobs, Job{Pkg: pkgV2, Harness: "c09_sched", Instr: "v2fine", Params: fmt.Sprintf("scenario=%d;threads=2;policy=delay;budget=2", sc), Shards: 4})
